@@ -1,5 +1,252 @@
-(* Props/C15.v — PLACEHOLDER created by the check-writer for local testing only; to be replaced by the
-   real theorems of property C15. *)
-Example C15_placeholder : True.
-Proof. exact I. Qed.
-Print Assumptions C15_placeholder.
+(* Props/C15.v — property C15: locked private keys are lossless, tamper-evident and in the documented format.
+   PARTIAL for tamper evidence (cryptographic premise).
+   Statements only; proofs are in Proofs/KeyringFacts.v.
+
+   Model: Keyring::lock_private_key / unlock_private_key / EncodedSk::try_from ([sk_string_ok]) over the strict
+   RFC 4648 base64 of Spec/Base64.v; strings are lists of character codes, passwords arbitrary byte strings
+   (including empty and longer than 64 bytes).  [version] is notation for the extracted constant
+   x_kr_private_key_version = 65 67 6B 30 ("egk0"); [kr_key P pw salt] = scrypt(pw, salt, 32768, 8, 1, 32);
+   [kr_blob P sk pw salt] = version ++ salt ++ AEAD(kr_key, nonce = 12 zero bytes, ad = version, sk) (84 bytes).
+   [bytes_ok b]: every element of b is < 256 (needed wherever bytes go through base64);
+   [prims_bytes_ok P]: the primitives return byte strings — proved for the RFC instance (C15_rfc_prims_bytes_ok).
+
+   Unconditional: round trip; layout both ways (interoperability); every malformed string or version is
+   rejected with an error value; an accepted blob IS the honest seal of the returned key (AEAD open_inv).
+   PARTIAL: "with any other password, or after a change to any of its 84 bytes, unlocking fails" is proved under
+   the explicit premise that the AEAD open under the key derived in that run fails (Hopen) — for salt,
+   ciphertext, tag and password changes that is the cryptographic idealisation; for the 4 version bytes it is
+   unconditional (C15_tamper_version_rejected).  Not stated as a theorem: per-bit enumeration of the 672 flips. *)
+From Kestrel Require Import Bytes BytesFacts Outcome Prims.
+From Kestrel.gen Require Import Extracted.
+From Kestrel.Spec Require Import Base64 Base64Facts.
+From Kestrel.Model Require Import AeadWrap KeyringText Keyring.
+From Kestrel.Proofs Require Import KeyringFacts CombineKeyring.
+Local Open Scope N_scope.
+
+(* ROUND TRIP.  For every 32-byte private key, every password (any byte string), every 32-byte salt: lock_private_key succeeds, the string is accepted by EncodedSk::try_from, has 112 characters, and unlocks under the same password to exactly the original key *)
+Theorem C15_unlock_lock :
+  forall P : prims,
+  aead_ok P ->
+  hash_ok P ->
+  prims_bytes_ok P ->
+  forall (sk : list N) (pw : bytes) (salt : list N),
+  length sk = 32%nat ->
+  bytes_ok sk ->
+  length salt = 32%nat ->
+  bytes_ok salt ->
+  exists str : text,
+    lock_private_key P sk pw salt = Ok str /\
+    unlock_private_key P str pw = Ok sk /\ sk_string_ok str = true /\ length str = 112%nat.
+Proof. exact (unlock_lock). Qed.
+Print Assumptions C15_unlock_lock.
+
+(* DOCUMENTED FORMAT: the locked string is the base64 of version ++ salt ++ ChaCha20-Poly1305(key = scrypt(password, salt, 32768, 8, 1), nonce = 0^12, associated data = version, plaintext = private key), 84 bytes *)
+Theorem C15_layout :
+  forall P : prims,
+  aead_ok P ->
+  hash_ok P ->
+  prims_bytes_ok P ->
+  forall (sk : list N) (pw : bytes) (salt : list N),
+  length sk = 32%nat ->
+  bytes_ok sk ->
+  length salt = 32%nat ->
+  bytes_ok salt ->
+  exists str : text,
+    lock_private_key P sk pw salt = Ok str /\
+    b64_decode str =
+    Some
+      (x_kr_private_key_version ++
+       salt ++ p_seal P (kr_key P pw salt) (zeros 12) x_kr_private_key_version sk) /\
+    length
+      (x_kr_private_key_version ++
+       salt ++ p_seal P (kr_key P pw salt) (zeros 12) x_kr_private_key_version sk) = 84%nat.
+Proof. exact (lock_layout). Qed.
+Print Assumptions C15_layout.
+
+(* INTEROPERABILITY, other direction: EVERY string whose base64 decoding has that shape — produced by any conforming implementation — unlocks to the key *)
+Theorem C15_conforming_unlocks :
+  forall P : prims,
+  aead_ok P ->
+  hash_ok P ->
+  forall (str sk : list N) (pw : bytes) (salt : list N),
+  length sk = 32%nat ->
+  length salt = 32%nat ->
+  b64_decode str = Some (kr_blob P sk pw salt) -> unlock_private_key P str pw = Ok sk.
+Proof. exact (conforming_unlocks). Qed.
+Print Assumptions C15_conforming_unlocks.
+
+(* exactly: unlocking succeeds with key sk IF AND ONLY IF the string decodes to the blob of sk under that password and some 32-byte salt *)
+Theorem C15_unlock_ok_iff :
+  forall P : prims,
+  aead_ok P ->
+  hash_ok P ->
+  forall (locked : text) (pw sk : bytes),
+  sk_string_ok locked = true ->
+  unlock_private_key P locked pw = Ok sk <->
+  (exists salt : list N,
+     length salt = 32%nat /\ length sk = 32%nat /\ b64_decode locked = Some (kr_blob P sk pw salt)).
+Proof. exact (unlock_ok_iff). Qed.
+Print Assumptions C15_unlock_ok_iff.
+
+(* EncodedSk::try_from accepts exactly the strict base64 strings of 84 bytes *)
+Theorem C15_sk_string_ok_iff :
+  forall s : text,
+  sk_string_ok s = true <-> (exists b : bytes, b64_decode s = Some b /\ length b = 84%nat).
+Proof. exact (sk_string_ok_iff). Qed.
+Print Assumptions C15_sk_string_ok_iff.
+
+(* base64 is strict: a string that decodes is THE encoding of its decoding (canonical trailing bits and padding, no ignored characters) *)
+Theorem C15_sk_string_canonical :
+  forall (s : list N) (b : bytes), b64_decode s = Some b -> s = b64_encode b /\ bytes_ok b.
+Proof. exact (sk_string_ok_canonical). Qed.
+Print Assumptions C15_sk_string_canonical.
+
+(* accepted strings have 112 characters *)
+Theorem C15_sk_string_length :
+  forall s : text, sk_string_ok s = true -> length s = 112%nat.
+Proof. exact (sk_string_ok_length). Qed.
+Print Assumptions C15_sk_string_length.
+
+(* every accepted string, every password: a 32-byte key, PrivateKeyFormat or PrivateKeyDecrypt — never a panic *)
+Theorem C15_unlock_no_panic :
+  forall P : prims,
+  aead_ok P ->
+  hash_ok P ->
+  forall (locked : text) (pw : bytes),
+  sk_string_ok locked = true ->
+  (exists sk : bytes, unlock_private_key P locked pw = Ok sk /\ length sk = 32%nat) \/
+  unlock_private_key P locked pw = Err PrivateKeyFormat \/
+  unlock_private_key P locked pw = Err PrivateKeyDecrypt.
+Proof. exact (unlock_no_panic). Qed.
+Print Assumptions C15_unlock_no_panic.
+
+(* an 84-byte blob whose first four bytes differ from the version is PrivateKeyFormat; one with the right version whose AEAD open fails is PrivateKeyDecrypt *)
+Theorem C15_rejects_malformed :
+  forall P : prims,
+  aead_ok P ->
+  hash_ok P ->
+  forall (locked : list N) (kb pw : bytes),
+  b64_decode locked = Some kb ->
+  length kb = 84%nat ->
+  (firstn 4 kb <> x_kr_private_key_version -> unlock_private_key P locked pw = Err PrivateKeyFormat) /\
+  (firstn 4 kb = x_kr_private_key_version ->
+   p_open P (kr_key P pw (firstn 32 (skipn 4 kb))) (zeros 12) (firstn 4 kb) (skipn 36 kb) = None ->
+   unlock_private_key P locked pw = Err PrivateKeyDecrypt).
+Proof. exact (unlock_rejects). Qed.
+Print Assumptions C15_rejects_malformed.
+
+(* TAMPER, unconditional part: any change to the 4 version bytes (any 84-byte blob whose first four bytes are not the version), any password: PrivateKeyFormat *)
+Theorem C15_tamper_version_rejected :
+  forall P : prims,
+  aead_ok P ->
+  hash_ok P ->
+  forall (blob' : list N) (pw' : bytes),
+  length blob' = 84%nat ->
+  bytes_ok blob' ->
+  firstn 4 blob' <> x_kr_private_key_version ->
+  unlock_private_key P (b64_encode blob') pw' = Err PrivateKeyFormat.
+Proof. exact (tamper_version_rejected). Qed.
+Print Assumptions C15_tamper_version_rejected.
+
+(* instance: the honest blob with only its version bytes replaced *)
+Theorem C15_tamper_version_only :
+  forall P : prims,
+  aead_ok P ->
+  hash_ok P ->
+  forall (sk : list N) (pw : bytes) (salt v' : list N) (pw' : bytes),
+  length sk = 32%nat ->
+  length salt = 32%nat ->
+  length v' = 4%nat ->
+  v' <> x_kr_private_key_version ->
+  bytes_ok (v' ++ skipn 4 (kr_blob P sk pw salt)) ->
+  unlock_private_key P (b64_encode (v' ++ skipn 4 (kr_blob P sk pw salt))) pw' = Err PrivateKeyFormat.
+Proof. exact (tamper_version_only). Qed.
+Print Assumptions C15_tamper_version_only.
+
+(* TAMPER, PARTIAL: any 84-byte blob differing from the honest one, or any other password, is rejected with an error — PROVIDED the AEAD open under the key derived in that run fails (premise Hopen: the cryptographic step) *)
+Theorem C15_tamper_rejected_partial :
+  forall P : prims,
+  aead_ok P ->
+  hash_ok P ->
+  forall (sk pw salt : bytes) (blob' : list N) (pw' : bytes),
+  length blob' = 84%nat ->
+  bytes_ok blob' ->
+  blob' <> kr_blob P sk pw salt \/ pw' <> pw ->
+  p_open P (kr_key P pw' (firstn 32 (skipn 4 blob'))) (zeros 12) (firstn 4 blob') (skipn 36 blob') =
+  None ->
+  unlock_private_key P (b64_encode blob') pw' = Err PrivateKeyFormat \/
+  unlock_private_key P (b64_encode blob') pw' = Err PrivateKeyDecrypt.
+Proof. exact (tamper_rejected_partial). Qed.
+Print Assumptions C15_tamper_rejected_partial.
+
+(* WRONG PASSWORD, PARTIAL: the honest locked string tried with any other password pw' gives exactly PrivateKeyDecrypt, under the premise that the AEAD open of the honest ciphertext under scrypt(pw', salt) fails *)
+Theorem C15_other_password_rejected_partial :
+  forall P : prims,
+  aead_ok P ->
+  hash_ok P ->
+  prims_bytes_ok P ->
+  forall (sk : list N) (pw : bytes) (salt : list N) (pw' : bytes),
+  length sk = 32%nat ->
+  bytes_ok sk ->
+  length salt = 32%nat ->
+  bytes_ok salt ->
+  p_open P (kr_key P pw' salt) (zeros 12) x_kr_private_key_version
+    (p_seal P (kr_key P pw salt) (zeros 12) x_kr_private_key_version sk) = None ->
+  exists str : text,
+    lock_private_key P sk pw salt = Ok str /\
+    sk_string_ok str = true /\
+    unlock_private_key P str pw = Ok sk /\ unlock_private_key P str pw' = Err PrivateKeyDecrypt.
+Proof. exact (other_password_rejected_partial). Qed.
+Print Assumptions C15_other_password_rejected_partial.
+
+(* what acceptance means, unconditionally: if an 84-byte blob unlocks to sk' under pw', its last 48 bytes ARE the AEAD seal of sk' under scrypt(pw', its salt) with the version as associated data *)
+Theorem C15_tamper_accepted_is_seal :
+  forall P : prims,
+  aead_ok P ->
+  hash_ok P ->
+  forall (blob' : list N) (pw' sk' : bytes),
+  length blob' = 84%nat ->
+  bytes_ok blob' ->
+  unlock_private_key P (b64_encode blob') pw' = Ok sk' ->
+  firstn 4 blob' = x_kr_private_key_version /\
+  skipn 36 blob' =
+  p_seal P (kr_key P pw' (firstn 32 (skipn 4 blob'))) (zeros 12) x_kr_private_key_version sk'.
+Proof. exact (tamper_accepted_is_seal). Qed.
+Print Assumptions C15_tamper_accepted_is_seal.
+
+(* hence a blob with the honest version and salt but a different ciphertext/tag can never unlock to the honest key *)
+Theorem C15_tamper_same_key_other_plaintext :
+  forall P : prims,
+  aead_ok P ->
+  hash_ok P ->
+  forall (sk pw : bytes) (salt ct' : list N) (sk' : bytes),
+  length salt = 32%nat ->
+  length (x_kr_private_key_version ++ salt ++ ct') = 84%nat ->
+  bytes_ok (x_kr_private_key_version ++ salt ++ ct') ->
+  ct' <> p_seal P (kr_key P pw salt) (zeros 12) x_kr_private_key_version sk ->
+  unlock_private_key P (b64_encode (x_kr_private_key_version ++ salt ++ ct')) pw = Ok sk' -> sk' <> sk.
+Proof. exact (tamper_same_key_other_plaintext). Qed.
+Print Assumptions C15_tamper_same_key_other_plaintext.
+
+(* the byte-range hypothesis holds for the RFC instance ... *)
+Theorem C15_rfc_prims_bytes_ok :
+  forall scr : bytes -> bytes -> N -> N -> N -> nat -> bytes, prims_bytes_ok (Concrete.rfc_prims scr).
+Proof. exact (rfc_prims_bytes_ok). Qed.
+Print Assumptions C15_rfc_prims_bytes_ok.
+
+(* ... so the round trip holds outright for the RFC primitives (given only that the supplied scrypt returns the requested number of bytes) *)
+Theorem C15_rfc_unlock_lock :
+  forall scr : bytes -> bytes -> N -> N -> N -> nat -> list N,
+  (forall (pw s : bytes) (n r q : N) (l : nat), length (scr pw s n r q l) = l) ->
+  forall (sk : list N) (pw : bytes) (salt : list N),
+  length sk = 32%nat ->
+  bytes_ok sk ->
+  length salt = 32%nat ->
+  bytes_ok salt ->
+  exists str : text,
+    lock_private_key (Concrete.rfc_prims scr) sk pw salt = Ok str /\
+    unlock_private_key (Concrete.rfc_prims scr) str pw = Ok sk /\
+    sk_string_ok str = true /\ length str = 112%nat.
+Proof. exact (rfc_unlock_lock). Qed.
+Print Assumptions C15_rfc_unlock_lock.
+
